@@ -32,13 +32,16 @@ RULE = (
 )
 ASSUMPTIONS = [
     "only non-pruning tries (the property is about them)",
+    "a squash_changes block opened on a batch trie may be refused (with any exception) or work; history must survive either way",
     "fault model: a database write raises; reads and membership tests do not fail here (C07 covers reads)",
 ]
 FLOORS = {
     "quick": {"db_writes_checked": 9000, "historical_reads": 150000, "fault_points": 2000,
-              "interleaved_spans": 500, "snapshot_writes": 300, "batch_steps": 1000},
+              "interleaved_spans": 500, "snapshot_writes": 300, "batch_steps": 1000, "nested_batch_refused": 100,
+              "nested_batch_committed": 50},
     "thorough": {"db_writes_checked": 90000, "historical_reads": 1500000, "fault_points": 20000,
-                 "interleaved_spans": 5000, "snapshot_writes": 3000, "batch_steps": 10000},
+                 "interleaved_spans": 5000, "snapshot_writes": 3000, "batch_steps": 10000,
+                 "nested_batch_refused": 1000, "nested_batch_committed": 500},
 }
 
 
@@ -208,6 +211,37 @@ class Sched:
                         raise Violation("history-op-effect", "after the operation get(%s)=%s, expected %s" % (
                             hx(k), hx(got), hx(self.models[i].get(k, b""))))
                 self.remember(t.root_hash, self.models[i])
+            elif kind == "nested":
+                # a squash_changes block opened on the batch trie of another block.  Whether the
+                # code supports that is not promised (any refusal is accepted, and then nothing
+                # may have happened); what IS promised is that history survives it.
+                if i in self.open:
+                    continue
+                outer, inner = step[2], step[3]
+                bm = dict(self.models[i])
+                before_root = t.root_hash
+
+                def block():
+                    with t.squash_changes() as b:
+                        for o in outer:
+                            hh.apply_plain(b, bm, o)
+                        with b.squash_changes() as b2:
+                            for o in inner:
+                                hh.apply_plain(b2, bm, o)
+
+                res = cut(block, expect=(Exception,))
+                self.check_trace()
+                if isinstance(res, Raised):
+                    self.ctx.count("nested_batch_refused")
+                    if t.root_hash != before_root:
+                        raise Violation("history-fault-root", "root changed by a nested batch that was refused with %s" % type(res.exc).__name__)
+                else:
+                    self.ctx.count("nested_batch_committed")
+                    self.models[i] = bm
+                self._compare(HexaryTrie(self.db, t.root_hash), t.root_hash, self.models[i], "current root after a nested batch")
+                self.remember(t.root_hash, self.models[i])
+                for root, model in self.roots[-4:]:
+                    self.read_root(root, model, "fresh")
             elif kind == "open":
                 if i in self.open:
                     continue
@@ -290,6 +324,11 @@ def gen_case(rnd, tier):
             open_spans.add(i)
         elif r < 0.22:
             steps.append(["snapw", i, rnd.randrange(1000), hh.gen_op(rnd, universe, pool, keys[i])])
+        elif r < 0.28:
+            # keys[i] is not updated: the nested batch may be refused, later steps draw keys anyway
+            outer = [hh.gen_op(rnd, universe, pool, keys[i]) for _ in range(rnd.randint(0, 3))]
+            inner = [hh.gen_op(rnd, universe, pool, keys[i]) for _ in range(rnd.randint(0, 3))]
+            steps.append(["nested", i, outer, inner])
         elif r < 0.45:
             n = rnd.randint(0, 4)
             sub = [hh.gen_op(rnd, universe, pool, keys[i]) for _ in range(n)]
